@@ -54,8 +54,8 @@ def monitor(c):
     for (tv, _), cls in zip(variants, members):
         declared[tv] = cls
     got = c.fd_obs
-    if got[0] == 'escape':
-        return out
+    if got[0] == 'escape' and not isinstance(v, dict):
+        return out      # an escape on a non-mapping is C04's business; on a mapping with a bad tag it is decided below
     tagname_in_msg = None
     if not isinstance(v, dict):
         if got[0] == 'ok':
@@ -87,6 +87,8 @@ def monitor(c):
         except TypeError:
             known = False
     if present and known:
+        if got[0] == 'escape':
+            return out
         cls = declared[key]
         alone = fd(body, cls)
         if alone[0] == 'escape':
@@ -110,6 +112,10 @@ def monitor(c):
                     out.append(('C12:error-does-not-name-tag', f'unknown/ill-kinded tag {tagv!r}: message does not name the tag {tag!r}: {msg[:200]}', None))
             elif not present and names and not all(n in msg for n in names):
                 out.append(('C12:error-does-not-name-tag-key', f'absent tag: message does not name {names}: {msg[:200]}', None))
+        elif got[0] == 'escape':
+            # an absent, unknown or ill-kinded tag is a ConvertError that names the tag -- not another exception
+            out.append((f'C12:bad-tag-escapes:{type(got[1]).__name__}', f'{v!r} as {c.built.py!r}: the {"absent" if not present else "unknown or ill-kinded"} tag '
+                        f'{tagv!r} made from_data raise {type(got[1]).__name__}: {got[1]} instead of a ConvertError naming the tag', None))
     # symmetry
     if got[0] == 'ok':
         issues = class_issues(c.term)
